@@ -36,6 +36,7 @@ ASSUMPTIONS = [
     "REGEX routes are not modelled (get_location_router registers PREFIX routes only)",
     "family map replaces loop.create_connection (recorder + canned response through the real GeminiClientProtocol); family live uses real TLS sockets on loopback with decoy servers",
     "the direct oracle computes host/port/path/query with urllib.parse.urlsplit, independently of nauyaca.utils.url",
+    "family conc runs several requests concurrently through one handler (asyncio.gather; the recorder answers each connection after 1-30 ms with an echo of the request line): the model treats every request independently (driver op pcasen), which is exactly the claim being checked; identical URLs asked by m clients may be fetched between 1 and m times",
 ]
 LEVEL_TEXT = "proof"
 LEVEL_NOTE = ("URL construction, prefix stripping, routing order and the upstream round trip are proved over the models for every path/query/configuration "
@@ -454,7 +455,181 @@ class Live(_Base):
         return super().key(self._concrete(case), obs)
 
 
-FAMILIES = [Map(), Live()]
+class Concurrent(_Base):
+    """Several requests in flight through ONE router / ProxyHandler at the same time.  The upstream (recorder)
+    answers each connection after a delay with an echo of the request line it received, so every client can
+    tell whether it got the answer to its own URL."""
+    name = "conc"
+    quick_n = 1600
+    thorough_n = 30000
+
+    def setup(self):
+        from ..sim import url_upstream as U
+
+        if getattr(self, "_ready", False):
+            return
+        self._init_common()
+        self._delays = [0.01]
+
+        def responder(rec):
+            k = len(self.inter.records) - 1
+            return self._delays[k % len(self._delays)], b"20 text/plain\r\n" + rec.get("written", b"")
+
+        self.inter = U.Interposer(self.loop, responder=responder)
+        self._ready = True
+
+    def gen(self, rng: random.Random, n: int):
+        api = {"type": "proxy", "prefix": "/api", "upstream": "gemini://up.example", "strip": True}
+        base = {"type": "proxy", "prefix": "/", "upstream": "gemini://up.example:7070/base", "strip": False}
+        det = [
+            {"locs": [api], "reqs": [["gemini://front.example/api/search?cats", 0], ["gemini://front.example/api/search?dogs", 2]], "delays": [20]},
+            {"locs": [api], "reqs": [["gemini://front.example/api/search?a", 0], ["gemini://front.example/api/search", 0], ["gemini://front.example/api/search?", 1]], "delays": [15, 5]},
+            {"locs": [api], "reqs": [["gemini://front.example/api/x?1", 0], ["gemini://front.example/api/x?1", 0], ["gemini://front.example/api/x?2", 0]], "delays": [10]},
+            {"locs": [api, base], "reqs": [["gemini://front.example/api/x?q", 0], ["gemini://front.example/x?q", 0], ["gemini://front.example/apix?q", 0]], "delays": [10, 3]},
+            {"locs": [base], "reqs": [["gemini://front.example/p?%s" % i, i] for i in range(6)], "delays": [30, 1, 12]},
+            {"locs": [api], "reqs": [["gemini://front.example/api/a?x", 0], ["gemini://front.example/api/a?y", 40]], "delays": [5]},   # not overlapping
+        ]
+        cnt = 0
+        for c in self.share(det):
+            cnt += 1
+            yield c
+        ups = ["gemini://up.example", "gemini://up.example:7070", "gemini://up.example/base", "gemini://10.0.0.9:70/a/b"]
+        pool = []
+        for _ in range(10):   # a few configurations, many request groups each (building a handler is the expensive part)
+            locs = []
+            for _ in range(rng.choice([1, 1, 2, 3])):
+                if rng.random() < 0.85:
+                    locs.append({"type": "proxy", "prefix": rng.choice(["/", "/api", "/api/", "/a/b/", "/apikey"]), "upstream": rng.choice(ups), "strip": rng.random() < 0.6})
+                else:
+                    locs.append({"type": "static", "prefix": rng.choice(["/", "/s/", "/api/"])})
+            pool.append(locs)
+        for _ in range(max(0, n - cnt)):
+            locs = rng.choice(pool)
+            k = rng.choice([2, 2, 3, 4, 6])
+            paths = [path_near(rng, locs) for _ in range(2)]
+            paths = [p for p in paths if p.isascii() and " " not in p and "\\" not in p and "?" not in p] or ["/api/x"]
+            reqs = []
+            for i in range(k):
+                r = rng.random()
+                path = paths[0] if r < 0.75 else rng.choice(paths)
+                q = rng.choice(["", "?", "?q", "?q=%d" % i, "?%d" % i, "?a?b", "?" + "z" * rng.randrange(1, 30)])
+                if i and rng.random() < 0.15:
+                    reqs.append([reqs[rng.randrange(len(reqs))][0], rng.choice([0, 0, 1, 3])])   # the very same URL again
+                else:
+                    reqs.append(["gemini://" + rng.choice(["front.example", "front.example:1966", "decoy.example:7070"]) + path + q, rng.choice([0, 0, 0, 1, 2, 5, 14])])
+            yield {"locs": locs, "reqs": reqs, "delays": [rng.choice([1, 3, 6, 10]) for _ in range(rng.choice([1, 2, 3]))]}
+
+    def impl(self, case):
+        from nauyaca.protocol.request import GeminiRequest
+
+        router, chosen = self._router(case["locs"])
+        self.inter.records.clear()
+        self._delays = [d / 1000 for d in case["delays"]]
+
+        async def one(line, start_ms):
+            if start_ms:
+                await asyncio.sleep(start_ms / 1000)
+            try:
+                req = GeminiRequest.from_line(line)
+            except ValueError:
+                return ["rejected"]
+            try:
+                before = len(chosen)
+                res = router.route(req)   # appends to `chosen` synchronously when a registered route is called
+                route = chosen[-1] if len(chosen) > before else "default"
+                if asyncio.iscoroutine(res):
+                    res = await res
+            except Exception as e:  # noqa: BLE001
+                return ["raised", type(e).__name__]
+            body = res.body if isinstance(res.body, (bytes, bytearray)) else (res.body or "").encode("utf-8", "replace") if isinstance(res.body, str) else b""
+            return ["ok", route, res.status, bytes(body).decode("utf-8", "replace")]
+
+        async def go():
+            chosen.clear()
+            return await asyncio.gather(*[one(l, s) for l, s in case["reqs"]])
+
+        results = self.loop.run_until_complete(go())
+        return {"results": results, "conns": [[r["host"], r["port"]] for r in self.inter.records],
+                "sent": [r.get("written", b"").decode("utf-8", "surrogateescape") for r in self.inter.records]}
+
+    def model(self, case):
+        locs = case["locs"]
+        ls = ";".join(f"s:{cps(l['prefix'])}" if l["type"] == "static" else f"x:{cps(l['prefix'])}:{1 if l['strip'] else 0}:{cps(l['upstream'])}" for l in locs)
+        return f"pcasen 1 1 1 1 {ls or '-'} " + ";".join(cps(l) for l, _ in case["reqs"])
+
+    def expect(self, case, out):
+        exp = []
+        for part in out.split(" ; "):
+            e = _Base.expect(self, case, part)
+            exp.append(e)
+        return exp
+
+    def same(self, expected, obs):
+        want_sent = []
+        for e, r in zip(expected, obs["results"]):
+            if e["req"] == "rejected":
+                if r[0] != "rejected":
+                    return False
+                continue
+            if r[0] != "ok" or r[1] != e["route"]:
+                return False
+            if e.get("kind") == "proxy":
+                if e.get("sent"):
+                    want_sent.append(e["sent"][0])
+                    if r[2] != 20 or r[3] != e["sent"][0]:
+                        return False
+                elif r[2] != 43:
+                    return False
+        return sorted(want_sent) == sorted(obs["sent"])
+
+    def oracle(self, case, obs):
+        locs = case["locs"]
+        wanted: dict = {}
+        for (line, _), r in zip(case["reqs"], obs["results"]):
+            if r[0] != "ok":
+                continue
+            path, query = spec_split(line)
+            i = spec_location(locs, path)
+            want_route = "default" if i is None else i
+            if r[1] != want_route:
+                return ("route-order", f"path {path!r} must be served by location {want_route}, was served by {r[1]} (with {len(case['reqs'])} requests in flight)")
+            if i is None or locs[i]["type"] != "proxy":
+                continue
+            url = spec_url(locs[i], path, query)
+            if len(url) + 2 > 1024:
+                continue
+            wanted[url] = wanted.get(url, 0) + 1
+            if r[2] == 20 and r[3] != url + "\r\n":
+                return ("cross-talk", f"client asked {line!r} (upstream URL {url!r}) but received the answer to {r[3]!r}; requests in flight: {[l for l, _ in case['reqs']]}")
+            if r[2] != 20:
+                return ("not-forwarded", f"request {line!r} was answered {r[2]} with {len(case['reqs'])} requests in flight")
+            uh, uport = spec_hostport(locs[i]["upstream"])
+            for c in obs["conns"]:
+                if [c[0], c[1]] not in [list(spec_hostport(l["upstream"])) for l in locs if l["type"] == "proxy"]:
+                    return ("foreign-host", f"the proxy contacted {c}")
+        sent = [s[:-2] if s.endswith("\r\n") else s for s in obs["sent"]]
+        for url, m in wanted.items():
+            k = sent.count(url)
+            if k == 0:
+                return ("url-not-requested", f"upstream URL {url!r} was never requested upstream; upstream saw {sent}")
+            if k > m:
+                return ("extra-upstream-request", f"upstream URL {url!r} was requested {k} times for {m} client request(s)")
+        for sline in sent:
+            if sline not in wanted:
+                return ("extra-upstream-request", f"upstream saw {sline!r}, which no client asked for; wanted {sorted(wanted)}")
+        return None
+
+    def key(self, case, obs):
+        n = len(case["reqs"])
+        urls = [l for l, _ in case["reqs"]]
+        paths = {spec_split(l)[0] for l in urls}
+        dup = len(set(urls)) < n
+        overlap = max(s for _, s in case["reqs"]) <= max(case["delays"])
+        fwd = sum(1 for r in obs["results"] if r[0] == "ok" and r[2] == 20)
+        return f"n={n}:paths={min(len(paths), 3)}:dup={'y' if dup else 'n'}:overlap={'y' if overlap else 'n'}:fwd={min(fwd, 4)}"
+
+
+FAMILIES = [Map(), Live(), Concurrent()]
 
 
 def extract_extra():
